@@ -12,7 +12,7 @@
                accepted by the type checker every occurrence refers to a parameter or binder of the
                definition, at its declared type. *)
 From Coq Require Import List NArith String Bool.
-From SCC Require Import Base.Sexp Lang.FunSyn Lang.FunTy Lang.CoreSyn Lang.AxSize Model.Fun2Core.
+From SCC Require Import Base.Sexp Lang.FunSyn Lang.FunTy Lang.CoreSyn Lang.AxSize Lang.FsSize Model.Fun2Core Model.Shrink.
 Import ListNotations.
 Open Scope N_scope.
 
@@ -87,3 +87,20 @@ Definition fun_occ (p : fcprog) : N := fold_right N.max 0 (map fun_occ_def (fcpd
 Definition f2c_factor (k V : N) : N := 6 + (2 + k) * (V + 2).
 Definition f2c_bound_nodes (p : fcprog) : N := size_fcprog p * f2c_factor 0 (fun_occ p).
 Definition f2c_bound_weighted (p : fcprog) : N := f_wprog p * f2c_factor 1 (fun_occ p).
+
+(* what the type declarations of the source contribute to the bound of shrinking: the largest number of
+   xtors of a declared type (the continuation type _Cont { Ret(x) } included) and the largest xtor arity
+   (a destructor has one more argument in Core: its continuation); = prog_X / prog_A of the focused
+   program (Model/SizeDefs.v) *)
+Definition fun_X (p : fcprog) : N :=
+  N.max (decl_xtors (map compile_data (fcpdata p) ++ [cont_int])) (decl_xtors (map compile_codata (fcpcodata p))).
+Definition fun_A (p : fcprog) : N :=
+  N.max (decl_arity (map compile_data (fcpdata p) ++ [cont_int])) (decl_arity (map compile_codata (fcpcodata p))).
+
+(* the composed bounds of the pipeline Fun -> Core -> focused -> AxCut -> linearized (Proof/SizePipeline.v) *)
+Definition b_focused (W V : N) : N := 4 * (W * (12 + 3 * V)).
+Definition b_shrunk (w X A : N) : N := w * ((2 + X * (2 + A)) + 2 * (1 + X) * w).
+Definition b_linearized (S : N) : N := S * (5 + 3 * S).
+Definition b_cg (L : N) : N := L * (5 + 2 * L).
+Definition pipeline_ax_bound (p : fcprog) : N :=
+  b_linearized (b_shrunk (b_focused (f_wprog p) (fun_occ p)) (fun_X p) (fun_A p)).
